@@ -118,6 +118,18 @@ pub fn scenarios(prop: &str, tier: &str) -> Vec<Scenario> {
         }
         // goal bias 1: every sample comes from the goal sampler (alphabet = goal samples)
         if prop == "C16" {
+            // the goal sampler fails (once, at its k-th call): the iteration that asked it adds nothing, draws
+            // nothing else instead, and the call reports an error
+            for pk in [Pk::Rrt, Pk::Star] {
+                for k in [0usize, 1, 2] {
+                    for kind in [0u8, 1] {
+                        let mut sc = b.scenario(b.world_free(), b.params(pk, 1.0, 1.5, 1.0), &format!("{prop}/{kit}/free/{}x1/bias1/goal-sampler-fails@{k}/{kind}", pk.name()));
+                        sc.alphabet = sc.goal_samples.clone();
+                        sc.goal_fail_at = Some((k, kind));
+                        out.push(sc);
+                    }
+                }
+            }
             for &pk in &Pk::TREES {
                 // (obstructed worlds too: what happens after a goal-directed extension was blocked)
                 for w in [b.world_free(), b.world_named("subset0001", vec![b.obstacles[0].clone()]), b.world_named("subset0110", vec![b.obstacles[1].clone(), b.obstacles[2].clone()])] {
@@ -386,6 +398,21 @@ pub(crate) fn c16<K: Kit>(tier: &str, idx: usize, st: &Step<K>, rep: &mut Report
     if bias >= 1.0 && ds != 0 {
         fail("uniform-sampled-with-bias-1".into(), format!("{ds} uniform sample(s) drawn in one iteration with goal bias 1"), rep);
         return;
+    }
+    // the iteration whose goal-sampler call failed: nothing is added, nothing else is drawn, the call errs
+    if let Some((k, _)) = st.sc.goal_fail_at {
+        let k = k as u64;
+        if st.cb_before[1] <= k && k < st.cb_after[1] {
+            rep.count("iterations_with_a_failed_goal_sample", 1);
+            if ds != 0 || dg != 1 {
+                fail("sampled-again-after-goal-sampler-failure".into(), format!("the goal sampler failed, and the iteration drew {ds} uniform and {} further goal sample(s) instead of ending", dg - 1), rep);
+            } else if st.post.key() != st.pre.key() {
+                fail("tree-changed-after-goal-sampler-failure".into(), "the goal sampler failed, yet the tree changed in that iteration".into(), rep);
+            } else if !matches!(st.result, Err(e) if !matches!(e, oxmpl::base::error::PlanningError::Timeout)) {
+                fail("goal-sampler-failure-not-reported".into(), format!("the goal sampler failed, and solve returned {}", match st.result { Ok(p) => format!("Ok({} states)", p.len()), Err(e) => format!("{e:?}") }), rep);
+            }
+            return;
+        }
     }
     if ds + dg != 1 {
         fail("samples-per-iteration".into(), format!("one iteration drew {} samples", ds + dg), rep);
@@ -1072,7 +1099,7 @@ fn run_one<K: Kit>(prop: &'static str, tier: &'static str, idx: usize, sc: &Scen
     let letters: Vec<u8> = letters_override.map(|l| l.to_vec()).unwrap_or_else(|| (0..sc.alphabet.len() as u8).collect());
     let depth = depth_override.unwrap_or_else(|| depth_for(sc.kit, tier));
     let on_step = |st: &Step<K>, rep: &mut Report| {
-        if st.used != 1 && st.result.is_err() {
+        if st.used != 1 && st.result.is_err() && st.sc.goal_fail_at.is_none() {
             rep.engine_error(format!("one-iteration step consumed {} samples in {}", st.used, st.sc.tag));
             return;
         }
